@@ -20,6 +20,7 @@ Pipelines
 Python only builds objects, runs msdm, projects to integers, and maps TLC's failure records to VIOLATION / DRIFT.
 """
 import math
+import os
 import random
 import warnings
 from fractions import Fraction as F
@@ -76,7 +77,7 @@ def shape_rewards(rng, m, shape):
     N, K = m["N"], m["K"]
     R = m["R"]
     if shape == "ns":
-        row = [rng.randint(-4, 4) for _ in range(N)]
+        row = list(R[0][0])
         m["R"] = [[list(row) for _ in range(K)] for _ in range(N)]
     elif shape == "s":
         m["R"] = [[[R[s][0][0]] * N for _ in range(K)] for s in range(N)]
@@ -102,6 +103,14 @@ def magnitude_fine(m, lam, PRD, pmin):
 
 def make_case(rng, i, *, limit=None):
     """One (instance, configuration).  limit = (instance, weight) for the decreasing-weight families."""
+    while True:
+        case = _make_case(rng, i, limit=limit)
+        c = case["cfg"]
+        if magnitude_fine(case["m"], c["lam"], c["PRD"], min(min(r) for r in c["pn"])):
+            return case
+
+
+def _make_case(rng, i, *, limit=None):
     iface = "class" if (limit is None and i % 5 == 4) else "function"
     if limit is not None:
         m = dict(limit[0])
@@ -166,8 +175,10 @@ def make_case(rng, i, *, limit=None):
     force = True if iface == "class" else rng.random() < 0.5
     dtype = "f64" if (iface == "class" or limit is not None or rng.random() < 0.85) else "f32"
     check = True if (iface == "class" or limit is not None) else rng.random() < 0.95
+    # iteration budget: mostly ample; sometimes so small that the run normally ends WITHOUT reporting convergence
+    budget = NMAIN if (limit is not None or rng.random() < 0.8) else rng.choice([1, 2, 3])
     cfg = {"iface": iface, "shape": shape, "pform": pform, "PRD": PRD, "pn": pn, "wform": wform, "lam": [list(x) for x in lam],
-           "iform": iform, "IPD": IPD, "ip": ip, "force": force, "dtype": dtype, "check": check,
+           "iform": iform, "IPD": IPD, "ip": ip, "force": force, "dtype": dtype, "check": check, "budget": budget,
            "rep": dict(REPS[rng.randrange(len(REPS))]) if iface == "class" else None,
            "limit": limit is not None}
     return {"m": m, "cfg": cfg}
@@ -202,9 +213,19 @@ def mc_sized(m):
 # --------------------------------------------------------------------------------------------
 # running the real code
 # --------------------------------------------------------------------------------------------
+def _torch():
+    """torch with one intra-op thread: the tensors have at most 6 x 4 x 6 entries, and the thread pool makes the
+    thousands of tiny calls of a run several hundred times slower on a busy machine."""
+    import torch
+    if not getattr(_torch, "done", False):
+        torch.set_num_threads(1)
+        _torch.done = True
+    return torch
+
+
 def _tensors(case):
     import numpy as np
-    import torch
+    torch = _torch()
     m, c = case["m"], case["cfg"]
     N, K = m["N"], m["K"]
     dt = torch.float64 if c["dtype"] == "f64" else torch.float32
@@ -251,7 +272,7 @@ class Runner:
         if c["iface"] == "function":
             self.args = _tensors(case)
         else:
-            import torch
+            torch = _torch()
             rep = dict(c["rep"])
             self.b = build.build_mdp(m, rng=random.Random(digest(case)), explicit_list=True, **rep)
             mdp = self.b.mdp
@@ -352,7 +373,7 @@ def record_trace(case, corrupt=None):
         if corrupt is not None:
             corrupt(n, out)
         return out
-    main = run(NMAIN)
+    main = run(c.get("budget", NMAIN))
     conv, cits = main["conv"], main["its"]
     pi0 = [[c["ip"][s][a] / c["IPD"] for a in range(K)] for s in range(N)]
     last = cits if conv else min(cits + 1, MAXEV)        # index of the last logged iterate
@@ -452,8 +473,25 @@ DRIFT_FLAGS = {"initial-policy-differs-from-configured", "iterate-policy-not-nor
 
 
 def shape_of(c):
-    return (f"weight={c['wform']},prior={c['pform']},init={c['iform']},force={int(c['force'])},"
-            f"dtype={c['dtype']},reward={c['shape']}")
+    return f"weight={c['wform']},prior={c['pform']},dtype={c['dtype']}"
+
+
+def full_shape(c):
+    return (f"weight={c['wform']},prior={c['pform']},init={c['iform']},force={int(c['force'])},dtype={c['dtype']},"
+            f"reward={c['shape']},budget={c.get('budget', NMAIN)}")
+
+
+MAX_REPORTS = 30            # at most this many VIOLATION reports per run of the check (the rest is counted)
+
+
+def report(ctx, sig, what, case):
+    n = ctx.extra.get("violation_reports", 0)
+    if n >= MAX_REPORTS and not ctx.selftest:
+        ctx.count("violations_beyond_report_cap")
+        ctx.violations.append((sig, what, None))
+        return
+    ctx.extra["violation_reports"] = n + 1
+    ctx.violation(sig, what, case)
 
 
 def judge_cases(ctx, cases, *, corrupt=None, drop_event=None, label="trace"):
@@ -466,9 +504,9 @@ def judge_cases(ctx, cases, *, corrupt=None, drop_event=None, label="trace"):
             T, info = record_trace(case, corrupt=(corrupt.get(i) if corrupt else None))
         except Exception as ex:                                         # noqa: BLE001 - in-quantifier input
             ctx.evaluations += 1
-            ctx.violation(f"C19:{site}:raises/{shape_of(c)}",
-                          f"{site} raised {type(ex).__name__}: {str(ex)[:200]} on an input inside the quantifier",
-                          {"case": case, "clause": "raises"})
+            report(ctx, f"C19:{site}:raises/{shape_of(c)}",
+                   f"{site} raised {type(ex).__name__}: {str(ex)[:200]} on an input inside the quantifier "
+                   f"({full_shape(c)})", {"case": case, "clause": "raises"})
             continue
         ctx.evaluations += info["calls"]
         if drop_event is not None and drop_event[0] == i and len(T["ev"]) > drop_event[1] + 1:
@@ -519,10 +557,10 @@ def judge_cases(ctx, cases, *, corrupt=None, drop_event=None, label="trace"):
             if key in seen:
                 continue
             seen.add(key)
-            ctx.violation(f"C19:{site}:{f['c']}/{shape_of(c)}",
-                          f"{site} reported convergence but {f['c']} at state {f['s'] - 1} action {f['a'] - 1} "
-                          f"(residual {f['got']} units of 2^-20, tolerance {f['tol']})",
-                          {"case": case, "clause": f["c"], "fail": f})
+            report(ctx, f"C19:{site}:{f['c']}/{shape_of(c)}",
+                   f"{site} reported convergence but {f['c']} at state {f['s'] - 1} action {f['a'] - 1} "
+                   f"(residual {f['got']} units of 2^-20, tolerance {f['tol']}; {full_shape(c)})",
+                   {"case": case, "clause": f["c"], "fail": f})
         if not r["fails"] and not flags and not info["notes"]:
             ctx.validated += 1
         # evidence
@@ -537,8 +575,9 @@ def judge_cases(ctx, cases, *, corrupt=None, drop_event=None, label="trace"):
             ctx.count("entries_judged_one_sided", T["N"] * T["K"] - len(judged))
             if c["limit"] and rep.get("qstar"):
                 dist = max(abs(rep["qstar"][s][a] - e["q"][s][a]) for s in range(T["N"]) for a in range(T["K"]))
-                ctx.extra.setdefault("limit_distances_units", []).append(
-                    {"inst": digest(case["m"]), "weight": c["lam"][0], "dist": dist, "bound": rep["limitb"]})
+                lst = ctx.extra.setdefault("limit_distances_units", [])
+                if len(lst) < 40:
+                    lst.append({"inst": digest(case["m"]), "weight": c["lam"][0], "dist": dist, "bound": rep["limitb"]})
                 ctx.count("limit_clause_judged")
         ctx.sample({"instance": {k2: case["m"][k2] for k2 in ("N", "K", "PD", "GN", "GD", "P", "R")}, "cfg": c,
                     "real": {"converged": info["main"]["conv"], "iterations": info["main"]["its"],
@@ -547,12 +586,17 @@ def judge_cases(ctx, cases, *, corrupt=None, drop_event=None, label="trace"):
     return res.records
 
 
-def run_mc(ctx, cases):
-    seen, batch = set(), []
+def run_mc(ctx, cases, budget):
+    """budget = total number of initial supports ((2^K - 1)^N per instance) explored."""
+    seen, batch, starts = set(), [], 0
     for case in cases:
         m = case["m"]
         if not mc_sized(m) or digest(m) in seen:
             continue
+        n0 = (2 ** m["K"] - 1) ** m["N"]
+        if starts + n0 > budget:
+            continue
+        starts += n0
         seen.add(digest(m))
         T = {k: m[k] for k in INST_KEYS}
         K, N = m["K"], m["N"]
@@ -590,7 +634,7 @@ def check_log_tables():
 def run(ctx):
     check_log_tables()
     rng = random.Random(ctx.seed * 7919 + 19)
-    n, nl = (170, 12) if ctx.tier == "quick" else (2600, 150)
+    n, nl = (450, 30) if ctx.tier == "quick" else (4000, 250)
     ctx.rule = ("random (instance, configuration): 2-6 states, 1-4 actions, no absorbing states, rows = compositions of "
                 "PD in {2,3,4,5,10} with zero entries, integer rewards |r| <= 4 in 5 broadcast shapes, gamma in "
                 "{1/10,1/2,3/4,9/10,99/100}, entropy weight in {1/1000..10} as float / int / 1-tensor / per-state vector, "
@@ -611,7 +655,7 @@ def run(ctx):
         "with plain Python integers / Fractions; the optimal values against harness/pyoracle.py)",
     ]
     cases = make_cases(rng, n, nl)
-    run_mc(ctx, cases)
+    run_mc(ctx, cases, 5000 if ctx.tier == "quick" else 80000)
     chunk = 600
     for k in range(0, len(cases), chunk):
         judge_cases(ctx, cases[k:k + chunk], label=f"trace{k}")
